@@ -131,7 +131,8 @@ pub fn ref_ellipsoid(name: &str) -> Option<Ell> {
 /// Latitude lattice (degrees): special points plus a uniform step
 pub fn lat_lattice(step: f64, max_abs: f64) -> Vec<f64> {
     let mut v: Vec<f64> = vec![0.];
-    for s in [90., 89.9, 85., 80.7, 66.6, 45., 23.4, 10.3, 1e-9] {
+    // (the polar caps get a ladder of their own: formulas that are fine at 89.9 degrees may lose a digit for every nine)
+    for s in [90., 89.99999, 89.9999, 89.999, 89.99, 89.9, 85., 80.7, 66.6, 45., 23.4, 10.3, 1e-9] {
         v.push(s);
         v.push(-s);
     }
